@@ -52,14 +52,15 @@ def handleFilter (j : Json) : Json :=
     -- a series without end: the storage layer keeps [date of the first occurrence, largest time stamp]
     let unb := getBool j "unbounded" && ovr.isEmpty
     let tmax := getInt j "tmax"
+    let tmin := getInt j "tmin"
     let occ0 := occ.headD 0
     let m := timeRangeMatch fs fe ovr mainRanges
     let h := hull all
     obj [("match", Json.bool m),
          ("any", Json.bool (all.any (overlaps fs fe))),
          ("hull", match h with | some r => Json.arr #[jInt r.s, jInt r.e] | none => Json.null),
-         ("shortcut_simple", Json.bool (if unb then reportUnbounded true tmax fs fe occ0 all else reportWithShortcut true fs fe all)),
-         ("shortcut_nonsimple", Json.bool (if unb then reportUnbounded false tmax fs fe occ0 all else reportWithShortcut false fs fe all)),
+         ("shortcut_simple", Json.bool (if unb then reportUnbounded true tmax fs fe occ0 all tmin else reportWithShortcut true fs fe all tmin tmax)),
+         ("shortcut_nonsimple", Json.bool (if unb then reportUnbounded false tmax fs fe occ0 all tmin else reportWithShortcut false fs fe all tmin tmax)),
          ("ranges", Json.arr (all.map (fun r => Json.arr #[jInt r.s, jInt r.e])).toArray)]
 
 end Driver
